@@ -53,9 +53,33 @@ def taskDecide (ph sig : String) (eq same isOp ok : Bool) : String :=
     if admitTaskResult st r ok then "accept" else "reject"
   if sig == "valid" then mk .valid else if sig == "forged" then mk .forged else if sig == "nopub" then mk .noPubKey else "bad-op"
 
+/-- `auth.oracleTx (v sig)*`: one pair per signer of a create-price tx, in slot order — v = the creator
+    has a validator entry in x/oracle, sig = valid|forged|nopub (status of that signer's slot) -/
+def oracleTxPairs : List String → Option (List (Bool × SigStatus))
+  | [] => some []
+  | v :: sig :: rest =>
+    let sg := match sig with | "valid" => some SigStatus.valid | "forged" => some .forged | "nopub" => some .noPubKey | _ => none
+    match sg, oracleTxPairs rest with
+    | some sg, some ps => some ((b v, sg) :: ps)
+    | _, _ => none
+  | _ => none
+
+def oracleTxDecide (ps : List (Bool × SigStatus)) : String :=
+  let idx := List.range ps.length
+  let rs : List Request := (ps.zip idx).map (fun (p, i) => { callerAddress := 0, origin := 10 + i, arg0 := 10 + i, sig := p.2 })
+  let vals : List Addr := ((ps.zip idx).filter (fun (p, _) => p.1)).map (fun (_, i) => 10 + i)
+  let st : AuthState :=
+    { gateway := 1, avsOwners := fun _ => [], isAVS := fun _ => false, isOperator := fun _ => false,
+      isValidator := fun c => vals.contains c, authority := 99, mainnet := true }
+  if admitOraclePriceTx st rs then "accept" else "reject"
+
 def step (u : Unit) (w : List String) : Unit × String :=
   match w with
   | ["auth.reset"] => (u, "ok")
+  | "auth.oracleTx" :: rest =>
+    match oracleTxPairs rest with
+    | some ps => (u, oracleTxDecide ps)
+    | none => (u, "bad-op")
   | "auth.note" :: _ => (u, "ok")
   | ["auth.task", ph, sig, eq, same, isOp, ok] => (u, taskDecide ph sig (b eq) (b same) (b isOp) (b ok))
   | ["auth.challenge", ok] => (u, if admitChallenge exStateD { callerAddress := 50, origin := 50, arg0 := 61, sig := .valid } (b ok) then "accept" else "reject")
